@@ -162,10 +162,15 @@ def _verbatim(ctx, loader):
         tr = [f for f in mine if f.key[0] == 'truth' and f.key[2] and
               f.key[1] == 'presence_time' or f.key[0] == 'is' and
               not f.key[3] and f.key[1] == 'presence_time']
-        extra = [N.show(f) for f in mine if f not in le and f not in tr and
-                 not (f.key[0] == 'in' and 'self.cell.apps' in f.key[2])
-                 and not (f.key[0] == 'truth' and f.key[1] == 'placed_apps')
-                 and not (f.key[0] == 'is' and 'allocation' in f.key[1])]
+        def benign(f):
+            return f in le or f in tr or \
+                (f.key[0] == 'in' and 'self.cell.apps' in f.key[2]) or \
+                (f.key[0] == 'truth' and f.key[1] == 'placed_apps') or \
+                (f.key[0] == 'is' and 'allocation' in f.key[1])
+        # a condition held in a local is judged by what the local stands for
+        extra = [N.show(f) for f in mine if not benign(f) and not any(
+            benign(t) for t in facts[node]
+            if t.raw is not None and t.raw.key == f.key)]
         ctx.ob('C11.2', func, node, bool(le) and bool(tr) and not extra,
                'recorded placement restored verbatim exactly under '
                '`presence_time and presence_time <= placement_time`%s' % (
@@ -177,10 +182,14 @@ def _verbatim(ctx, loader):
     # presence_time / placement_time definitions
     for name, want in (('presence_time', 'presence_node'),
                        ('placement_time', 'appnode')):
-        vals = [N.txt(v) for v in defs.get(name, [])]
-        stamps = [K.exact_ms_to_s(v) for v in defs.get(name, [])
+        leaves = M.leaf_defs(defs, name)
+        vals = [N.txt(v) for v in leaves]
+        stamps = [K.exact_ms_to_s(v) for v in leaves
                   if 'ctime' in N.txt(v)]
-        ok = bool(stamps) and all(st == 'metadata.ctime' for st in stamps)
+        ok = bool(stamps) and all(
+            st is not None and _stamp_source(func, leaf, st, want, defs)
+            for st, leaf in zip(stamps, [v for v in leaves
+                                        if 'ctime' in N.txt(v)]))
         ctx.ob('C11.2', func, None, ok,
                '%s is the creation time of the node in seconds, converted '
                'without truncation (both sides of the comparison keep the '
@@ -199,6 +208,39 @@ def _verbatim(ctx, loader):
                'restored; others are placed through the normal leaf '
                'placement')
     return func, graph, facts, loop
+
+
+def _stamp_source(func, value, stamp, want, defs):
+    """``stamp`` (<m>.ctime) is read from the metadata returned by
+    backend.get_with_metadata(<want node>) in the statement before."""
+    meta = stamp.rsplit('.', 1)[0]
+    for block in ast.walk(func.node):
+        for field in ('body', 'orelse', 'finalbody'):
+            body = getattr(block, field, None)
+            if not isinstance(body, list):
+                continue
+            for idx, stmt in enumerate(body):
+                if not (isinstance(stmt, ast.Assign) and
+                        stmt.value is value and idx > 0):
+                    continue
+                prev = body[idx - 1]
+                if not (isinstance(prev, ast.Assign) and
+                        isinstance(prev.targets[0], ast.Tuple) and
+                        len(prev.targets[0].elts) == 2 and
+                        N.txt(prev.targets[0].elts[1]) == meta and
+                        isinstance(prev.value, ast.Call) and
+                        K.is_meth(prev.value, 'get_with_metadata') and
+                        prev.value.args):
+                    return False
+                node = prev.value.args[0]
+                leaves = [node] if not isinstance(node, ast.Name) else \
+                    M.leaf_defs(defs, node.id) or [node]
+                texts = set(N.txt(v) for v in leaves) | {N.txt(node)}
+                if want == 'presence_node':
+                    return any('server_presence(' in t for t in texts)
+                return any(t.endswith(want) or 'path.placement(' in t
+                           for t in texts)
+    return False
 
 
 def _keys_and_identity(ctx, loader, master, func, graph, facts):
@@ -312,8 +354,15 @@ def _nothing_else(ctx, loader, func):
     defs = M.local_defs(func)
     for loop in loops:
         dom = N.txt(loop.ast.iter)
-        src = [N.txt(v) for v in defs.get(dom, [])]
-        ok = any('get_placed_apps(servername)' in s for s in src)
+        leaves = M.leaf_defs(defs, dom)
+        src = [K.rtxt(func, v) for v in leaves]
+
+        def listing(text):
+            return text in ('self.get_placed_apps(servername)',
+                            'self.backend.list(z.path.placement('
+                            'servername))')
+        ok = any(listing(s) for s in src) and all(
+            listing(s) or s in ('[]', 'list()') for s in src)
         ctx.ob('C11.5', func, loop, ok,
                'restore ranges over the stored listing of that server: '
                '%s = %s' % (dom, src), construct='restore loop domain')
